@@ -35,6 +35,16 @@ CHECKS = {
         technique="bounded-exhaustive enumeration of (pattern, path) over the documented grammar against a reference matcher on segment lists; ordered route-table pairs through Router.dispatch",
         text="All 1249 patterns (<=4 segments, optional final ?,+,*) x all paths of <=4 (quick) / 5 (thorough) segments over an alphabet with prefix/extension/dot look-alikes, empty segments and trailing slashes: match verdict, bound values, no-empty-:name; plus every ordered pair of small patterns in one table / across two methods through dispatch (first match, method separation, 404).",
         note="paths containing '//' are UNSPECIFIED for the match verdict (documentation silent); alphabets are small-scope"),
+    "C13": dict(
+        engine="enum", category="exploration", design="5/C13",
+        technique="bounded-exhaustive enumeration of a value grammar (depth<=3/4, width<=2/3) with structural-equality oracle, double encoding + trailer for self-delimitation, out-of-domain refusal list",
+        text="Every value of the grammar (all int width boundaries of both signs, float specials, utf-8/NUL/127-129-byte strings, enums, lists/tuples/sets/dicts/classes nested to depth 3, thorough depth 4; 2.6e4 quick / 3.6e5 thorough values) is round-tripped, decoded from a doubled stream with a trailer, and 21 out-of-domain values must be refused.",
+        note="structural equality defined by the check (tuples==lists, float32 precision, nan==nan, bool!=int); values outside the grammar not covered"),
+    "C14": dict(
+        engine="enum", category="exploration", design="5/C14",
+        technique="bounded-exhaustive enumeration of hostile inputs (all truncations and bit flips of a corpus, all token sequences up to length 4/5, crafted nesting/length bombs) under a deterministic call-count meter and tracemalloc bound",
+        text="3.6e6 (quick) inputs: every prefix and single-bit flip of every small valid encoding and of the three handshake messages (also through the real _recvClientHello/_recvChallengeResponse/_recvServerHello), every sequence of <=4 tokens over 33 tokens at the length limits, ~400 crafted inputs; each must finish within 64*len+512 interpreter calls (observed max 12.3/byte), stay under 64*len+1MiB, and end in a value of supported/registered types or an ordinary exception.",
+        note="work measured in call events, memory by tracemalloc on the crafted family only; MemoryError and non-Exception escapes are violations; RecursionError is ordinary"),
 }
 
 NOT_YET = {
